@@ -941,9 +941,11 @@ def run(ctx):
         "proportional to weights[dz][dy][dx], multiplied under do_kappa by the product of both voxels' kappa, and the result is "
         "multiplied exactly once by penalisation_factor (linear scaling); (c) by closed-form algebra (sympy) for both signs of x-y and "
         "symbolic positive parameters: the gradient summand is d/dx of the value's two visits of the voxel pair including the scale "
-        "factors, it vanishes for equal voxels, derivative_20/derivative_11 are its partial derivatives, derivative_11 is symmetric. NOT "
-        "decided: PLSPrior, positive semi-definiteness, floating-point agreement with finite differences, the degenerate "
-        "epsilon == 0 branches."
+        "factors, it vanishes for equal voxels, derivative_20/derivative_11 are its partial derivatives, derivative_11 is symmetric; (g) "
+        "interface functions that assign their result voxel by voxel do so in every loop iteration; (i) every prior that can declare itself "
+        "convex declares both Hessian functions (PLSPrior: known finding F65); for PLSPrior (h) kappa travels with the flux and (j) every "
+        "c+1/c-1 subscript is guarded by the matching bound test. NOT decided: the PLS formulas, positive semi-definiteness, floating-point "
+        "agreement with finite differences, the degenerate epsilon == 0 branches."
     )
     ctx.assumptions += ["arrays are regular (the y/x ranges are taken from the current row, as the code itself assumes)", "neighbourhood weights are symmetric (w[-d] = w[d]); logcosh(d) = log(cosh(d))"]
     reqs = requests()
